@@ -181,14 +181,23 @@ def _kron_shapes(kmax=4, wmax=3):
 
 def _kron_task(args):
     impl, widths, scale, output, kind, seed = args
-    status, detail = _kron_one(impl, widths, scale, output, kind, seed)
+
+    def judged(kind):
+        # nothing the (possibly changed) library returns or raises may escape: an exception while setting up or judging
+        # is an outcome of this case
+        try:
+            return _kron_one(impl, widths, scale, output, kind, seed)
+        except Exception as e:
+            return f"oracle-not-applicable:{type(e).__name__}", f"{type(e).__name__}: {e}\n{traceback.format_exc()[-1500:]}"
+
+    status, detail = judged(kind)
     fallback = None
-    if kind == "sympy" and status == "raises":
+    if kind == "sympy" and (status == "raises" or status.startswith("oracle-not-applicable")):
         # the symbolic harness may not be applicable to a (changed) implementation: object arrays are
         # not what the pipeline feeds it.  Decide on floats instead; only that outcome is judged.
         fallback = detail
         kind = "float"
-        status, detail = _kron_one(impl, widths, scale, output, kind, seed)
+        status, detail = judged(kind)
     return impl, widths, scale, output, kind, status, detail, fallback
 
 
@@ -215,8 +224,11 @@ def _run_kron(ctx):
                 fallbacks += 1
             if status == "ok":
                 continue
-            clause = f"{clause_prefix}.{status}"
-            cls = f"{impl}:{'solo' if solo else 'nosolo'}:{'multi' if len(widths) - solo else 'allsolo'}"
+            if status.startswith("oracle-not-applicable"):
+                clause, cls = f"{clause_prefix}.values", status
+            else:
+                clause = f"{clause_prefix}.{status}"
+                cls = f"{impl}:{'solo' if solo else 'nosolo'}:{'multi' if len(widths) - solo else 'allsolo'}"
             n = seen[(clause, cls)] = seen.get((clause, cls), 0) + 1
             if n > MAX_WITNESS_PER_CLASS:
                 continue
@@ -495,6 +507,18 @@ def col(j):
 '''
 
 
+E2E_JUDGE_WITNESS = '''\
+# the driver's judge could not be applied to what the library returned; this re-runs it on the same case
+import numpy
+from vf.bounded import c02, _matrix_frames as mf
+spec = {spec!r}
+df = mf.build_frame(spec)
+table = c02._factor_table(spec)
+status, fails = c02._check_case(spec, df, table, {formula!r}, {intercept!r}, {terms!r}, {rank!r}, {output!r})
+assert not fails, fails
+'''
+
+
 def _to_float_matrix(mm, output):
     raw = mm.toarray() if output == "sparse" else numpy.asarray(mm)
     try:
@@ -642,6 +666,16 @@ def _scale_cls(r_unscaled, cands):
 
 
 def _e2e_task(args):
+    try:
+        return _e2e_task_body(args)
+    except Exception as e:  # nothing may escape a pool worker
+        cls = f"oracle-not-applicable:{type(e).__name__}"
+        witness = {"formula": "(whole task)", "frame": mf.spec_summary(args[0]), "ensure_full_rank": None, "output": None, "cls": cls,
+                   "code": "from vf.bounded import c02\nc02._e2e_task_body(" + repr(tuple(args)) + ")\n"}
+        return 1, set(), [], [("C02.e2e.builds", witness, f"{type(e).__name__}: {e}\n{traceback.format_exc()[-1500:]}")], {("C02.e2e.builds", cls): 1}, 0
+
+
+def _e2e_task_body(args):
     base_spec, seed, frame_index, thorough, part, nparts = args
     table, cases = _cases_for_frame(base_spec, seed, frame_index, thorough)
     outputs = ("pandas", "numpy", "sparse")
@@ -655,7 +689,10 @@ def _e2e_task(args):
     for ci in range(part, len(cases), nparts):
         formula, intercept, gen_terms = cases[ci]
         single = len(gen_terms) == 1
-        terms = _expected_terms(formula, gen_terms, intercept)
+        try:
+            terms = _expected_terms(formula, gen_terms, intercept)
+        except Exception:  # whatever Formula(...) hands back that cannot be read as terms: parser's subject, skipped + counted
+            terms = None
         if terms is None:
             skipped += 1
             continue
@@ -669,8 +706,13 @@ def _e2e_task(args):
                 spec, df = ispecs[kind], dfs[kind]
                 try:
                     status, fails = _check_case(spec, df, table, formula, intercept, terms, rank, output)
-                except Exception:
-                    raise RuntimeError(f"driver error on {formula!r} / {mf.spec_summary(spec)}:\n{traceback.format_exc()}")
+                except Exception as e:
+                    # the judge itself failed on what the library returned (garbage cells, unexpected shapes, ...): that is
+                    # an outcome of this case, not a reason to stop the run
+                    status = "checked"
+                    fails = [("C02.e2e.rankon.label-product" if rank else "C02.e2e.rankoff.kronecker-values",
+                              f"oracle-not-applicable:{type(e).__name__}",
+                              f"{type(e).__name__}: {e}\n{traceback.format_exc()[-1500:]}", None)]
                 if status != "checked":
                     skipped += 1
                     continue
@@ -683,7 +725,11 @@ def _e2e_task(args):
                     k = (clause, cls)
                     per_class[k] = per_class.get(k, 0) + 1
                     if per_class[k] <= 2:
-                        code = E2E_HEAD.format(frame=mf.frame_code(spec), formula=formula, rank=rank, output=output) + assertion
+                        if assertion is None:  # re-run the driver's own judge on the same case
+                            code = E2E_JUDGE_WITNESS.format(spec=spec, formula=formula, intercept=intercept, terms=terms,
+                                                            rank=rank, output=output)
+                        else:
+                            code = E2E_HEAD.format(frame=mf.frame_code(spec), formula=formula, rank=rank, output=output) + assertion
                         failures.append((clause, {"formula": formula, "frame": mf.spec_summary(spec), "ensure_full_rank": rank,
                                                   "output": output, "cls": cls, "code": code}, detail))
     return n_eval, keys, samples, failures, per_class, skipped
